@@ -312,7 +312,7 @@ func (r *pointRun[P]) run() {
 				continue
 			}
 			ev := map[string]any{"a": "rt", "curve": r.a.name, "api": d.api, "fmt": d.fm.rule, "label": e.label, "k": e.k,
-				"elem": tokElem(g.kind(), ptStr(g.cm(), e.p))}
+				"elem": tokElem(g.kind(), ptStr(g.cm(), e.p)), "elemNeg": tokElem(g.kind(), ptStr(g.cm(), g.cm().neg(e.p)))}
 			var enc []byte
 			var err error
 			if msg := guard(func() { enc, err = d.enc(e.real) }); msg != "" || err != nil {
@@ -359,7 +359,7 @@ func (r *pointRun[P]) run() {
 		}
 		x, y := r.affineXY(e.p)
 		ev := map[string]any{"a": "rt", "curve": r.a.name, "api": "FromAffine", "fmt": "affine", "label": e.label, "k": e.k,
-			"elem": tokElem(g.kind(), ptStr(g.cm(), e.p)), "enc": 1, "encx": 1, "re": 1}
+			"elem": tokElem(g.kind(), ptStr(g.cm(), e.p)), "elemNeg": 0, "enc": 1, "encx": 1, "re": 1}
 		var back P
 		var err error
 		msg := guard(func() { back, err = r.a.fromAffine(x, y) })
